@@ -15,11 +15,12 @@ META = {
         "type must be excluded from caching by the exclusion test actually coded in get_type (read from the source: exact-type membership vs. subclass-aware). (b) the memo is keyed by "
         "type(obj), written once per miss with the tag computed on that call, a hit returns the stored tag, and no other function writes the memo. (c) no other module-level mutable "
         "state is written anywhere in the package (who-may-write over module globals, with a positive probe). (d) identifier tables are dict displays (first-match order = source order) "
-        "and nothing mutates them. The warnings registry used by the numpy conversion warning is history dependent by design and not part of the classified outcome."
+        "and nothing mutates them. (e) isinstance() also honours obj.__class__, so an object that reports another class than its concrete type (weakref proxy, spec'd mock) is not determined by "
+        "type(obj): every memo store must be control-dependent on `obj.__class__ is type(obj)`. The warnings registry used by the numpy conversion warning is history dependent by design and not part of the classified outcome."
     ),
     "rule": "obligation = (resolver, representative type) pair for (a); one per structural clause for (b)-(d)",
     "trusted_base": [
-        "built-in subtype / ABC table of the representative types (isinstance against ABCs is type-determined; ABC registrations are not changed at run time)",
+        "built-in subtype / ABC table of the representative types (isinstance against ABCs is determined by type(obj) and obj.__class__; ABC registrations are not changed at run time)",
         "numpy assumed importable (the demanding case)",
     ],
     "assumptions": ["no monkey-patching of resolvers at run time"],
@@ -106,6 +107,48 @@ def run_unit(A, unit, rep, tier):
         rep.fail("C19.b", norm_key("C19.b", f.qualname, "store-on-exception-path"), "get_type writes the memo in a finally block: when a predicate raises, the type is cached with an unfinished classification and every later value of that type is misclassified", [f.loc], f.qualname)
     else:
         rep.ok("C19.b", "C19.b get_type writes the memo only after the classification completed")
+    # (e) isinstance() honours obj.__class__: for an object that reports another class than its concrete type
+    #     (weakref proxy, spec'd mock) type(obj) does not determine the predicates, so it must not be memoized
+    from ..classify import _conds_of
+
+    def class_consistency(test, pol):
+        """test (with polarity) implies  obj.__class__ is type(obj)."""
+        if isinstance(test, ast.BoolOp) and isinstance(test.op, ast.And) and pol:
+            return any(class_consistency(v, True) for v in test.values)
+        if isinstance(test, ast.BoolOp) and isinstance(test.op, ast.Or) and not pol:
+            return any(class_consistency(v, False) for v in test.values)
+        if isinstance(test, ast.UnaryOp) and isinstance(test.op, ast.Not):
+            return class_consistency(test.operand, not pol)
+        if isinstance(test, ast.Compare) and len(test.ops) == 1:
+            op = test.ops[0]
+            positive = isinstance(op, (ast.Is, ast.Eq))
+            negative = isinstance(op, (ast.IsNot, ast.NotEq))
+            if (positive and pol) or (negative and not pol):
+                sides = [test.left, test.comparators[0]]
+                def reported(x):
+                    return (isinstance(x, ast.Attribute) and x.attr == "__class__") or (
+                        isinstance(x, ast.Call) and dotted(x.func) == "getattr" and len(x.args) >= 2 and isinstance(x.args[1], ast.Constant) and x.args[1].value == "__class__")
+                def concrete(x):
+                    return (isinstance(x, ast.Name) and x.id in key_names) or (isinstance(x, ast.Call) and dotted(x.func) == "type")
+                return (reported(sides[0]) and concrete(sides[1])) or (reported(sides[1]) and concrete(sides[0]))
+        return False
+
+    unguarded = []
+    for st_ in stores:
+        stmt = st_
+        while not isinstance(stmt, ast.stmt):
+            stmt = stmt._parent
+        conds = _conds_of(stmt, src)
+        if not any(class_consistency(t, pol) for t, pol in conds):
+            unguarded.append(stmt)
+    if stores and not unguarded:
+        rep.ok("C19.e", "C19.e get_type memoizes a type only for objects whose reported class (obj.__class__, which isinstance() honours) is their concrete type")
+    else:
+        for stmt in unguarded:
+            rep.fail("C19.e", norm_key("C19.e", f.qualname, "reported-class"),
+                     "get_type memoizes the category under type(obj) although the predicates use isinstance(), which also honours obj.__class__: for objects that report another "
+                     "class than their concrete type (weakref.proxy, spec'd mocks) the first one seen decides the category of all later ones",
+                     [f"{f.module.path}:{stmt.lineno}: {ast.unparse(stmt)[:100]}"], f.qualname)
     writers = []
     for g in m.functions:
         if g.module.name == ABC_MOD or g is f or g.name == "__init__" and g.cls is f.cls:
